@@ -578,7 +578,8 @@ func (f *Fam) genTx1(r *rand.Rand, s *Snapshot) string {
 		}
 		// an upgrade height the chain will not reach: at that height the gov module's BeginBlock stops the process
 		// for the upgrade (by design), which is not a behaviour the line protocol can observe
-		fields = fmt.Sprintf("from=%s h=%d ver=%s", addr, pick(r, 0, 1000000, 5000000), []string{"1.0", "2.0"}[r.Intn(2)])
+		// (every fourth such height lies beyond 2^53, where a height that travelled through a float64 loses its last bits)
+		fields = fmt.Sprintf("from=%s h=%d ver=%s", addr, pick(r, 0, 1000000, 5000000, int64(1)<<53+4*int64(r.Intn(1000))), []string{"1.0", "2.0"}[r.Intn(2)])
 		if r.Intn(3) == 0 {
 			// a plan for a version the node already runs (no stop), at a height the chain is about to reach: the plan
 			// stays what it is when that height comes and goes
@@ -603,6 +604,10 @@ func (f *Fam) genTx1(r *rand.Rand, s *Snapshot) string {
 	if (mut == "none" && r.Intn(40) == 0) || (mut == "none" && x >= 75 && r.Intn(8) == 0) {
 		mut = "msg"
 	}
+	bigH := kind == "upgrade" && strings.Contains(fields, " h=90071992")
+	if bigH && r.Intn(2) == 0 {
+		mut = "msg" // the height changed by one after signing, where neighbouring heights are one float64
+	}
 	if mut == "msg" && mode == "simulate" {
 		mut = "memosp" // a simulation checks no signature: a changed message would simply be another message
 	}
@@ -620,6 +625,10 @@ func (f *Fam) genTx1(r *rand.Rand, s *Snapshot) string {
 			}
 		case "upgrade":
 			mfs = []string{"h", "ver"}
+			if bigH {
+				mfs = []string{"h"}
+				f.extra["c03:upgrade-height-beyond-2^53-changed-after-signing"]++
+			}
 		case "changeparam":
 			mfs = []string{"key", "val"}
 		}
